@@ -433,6 +433,11 @@ def cases(rng, tier, shard, nshards):
             steps = np.cumsum(rng.integers(-1, 3, len(knees)))
             pts[np.asarray(knees, dtype=int), 1] = abs(base) * (1.0 + delta * steps)
             fam = fam + '+near-tie-heights'
+            if rng.random() < 0.5:
+                # ... behind a first knee that towers over them (any comparison made relative to the first knee absorbs
+                # the small differences)
+                pts[int(np.asarray(knees)[0]), 1] = abs(base) * float(pick(rng, [1e6, 1e9, 1e12]))
+                fam = fam + '+towering-first'
         if lay is None and rng.random() < 0.04:
             # heights below zero (log-scaled miss ratios, centred data): the selection rules only compare heights
             pts = pts.copy()
